@@ -682,18 +682,18 @@ def cases_from_replay(path):
         elif v and v.startswith("poly.") and len(a) >= 5:
             nP = a[3]
             P, M = a[4:4 + nP], a[5 + nP:]
-            out.append((v, v[:-1] if v.endswith("d") else v, a, a, None, "replay", "p=%d" % a[0], (a[0], a[1], a[2], P, M)))
+            out.append((v, poly_model_op(v), a, a, None, "replay", "p=%d" % a[0], (a[0], a[1], a[2], P, M)))
     return out
 
 
-def run_parallel(binary, lines, nproc, timeout=1500):
+def run_parallel(binary, lines, nproc, timeout=2400, args=()):
     """the extracted model computes on Coq's binary integers (slow on multi-limb moduli): run it on nproc
     interleaved slices of the case list at once and put the output lines back in order"""
     import subprocess
     nproc = max(1, min(nproc, len(lines) or 1))
     procs = []
     for j in range(nproc):
-        pr = subprocess.Popen([binary], stdin=subprocess.PIPE, stdout=subprocess.PIPE, stderr=subprocess.PIPE, universal_newlines=True)
+        pr = subprocess.Popen([binary] + list(args), stdin=subprocess.PIPE, stdout=subprocess.PIPE, stderr=subprocess.PIPE, universal_newlines=True)
         procs.append(pr)
     import threading
     outs, errs, rcs = [None] * nproc, [""] * nproc, [0] * nproc
@@ -722,7 +722,8 @@ def main(tier, replay=None):
         "Coq 8.16.1 kernel",
         "extraction: ExtrOcamlBasic only; Z/positive/nat kept as extracted inductives; OCaml 4.13.1; zarith only for text I/O in harness/zio.ml",
         "Integer primitives used by the code (tdiv_q, tdiv_r, mpz_mod, submul, gcd, sqrt, compare) are given their GMP meaning on Z in Model.v (Z.quot, Z.rem, Z.modulo, Z.gcd, Z.sqrt); validated by the correspondence run",
-        "polynomial primitives (degree, div, mul, sub, gcd, leadcoef, divin over Z/p) are specified on coefficient lists in PolyModel.v, not translated; that these list operations form a ring with the degree laws assumed by C11_poly_ratrecon_sound is NOT proved (correspondence-tested; property C08's subject)",
+        "polynomial primitives (degree, assign, divmodin, maxpyin, gcd, leadcoef, divin) are the models of Poly1Dom of coq/C08 (hand-written after the C++, owned by property C08); the ring laws, the division identity and the product/threshold theorems used by C11_list_ratrecon_sound are C08's theorems, the degree laws are proved in coq/C11/PolyLists.v; the extracted instance runs over C08.Model.ZpDom p (integers mod p): that ZpDom p satisfies the field laws FieldOK on [0,p) for prime p is NOT proved (it fails outside [0,p) for Leibniz equality on Z) - the theorem is stated for every domain satisfying FieldOK (satisfiable: GF2Dom)",
+        "that the fuel deg P + deg M + 4 suffices for the list instance (deg(remainder) < deg(divisor) for the Newton-inverse division) is not proved; a model running out of fuel is reported as a broken obligation",
         "harness/c11_ratrecon.C, checks/C11.py (generators, python oracles)",
         "g++ / x86-64 / GMP for the implementation side",
     ]
@@ -739,13 +740,34 @@ def main(tier, replay=None):
         chk.broke("implementation harness does not compile against /repo", l2)
         return chk.finish()
     vf.log("C11: proofs+builds %.1fs" % (time.time() - chk.t0))
+    # constants the theorems depend on, as the COMPILED implementation sees them (tie, read on every run):
+    #   Rational::Reduce / NoReduce converted to `bool forcereduce` by Rational(f,m,k,recurs) (model: flags = Reduce <-> true);
+    #   KARA_THRESHOLD / SQR_THRESHOLD of givpoly1kara.inl (C11_list_ratrecon_sound needs kthr >= 1; passed to the extracted model)
+    kthr, sthr = 50, 50
+    rc, cout, cerr = vf.run_lines(himpl, "consts\n", timeout=600)
+    ct = cout[0].split() if (rc == 0 and cout) else []
+    if len(ct) == 7 and ct[0] == "CONSTS" and all(x.lstrip("-").isdigit() for x in ct[1:]):
+        red, nored, redb, noredb, kthr, sthr = [int(x) for x in ct[1:]]
+        chk.cov["source_constants"] = {"Rational::Reduce": red, "Rational::NoReduce": nored, "bool(Reduce)": redb, "bool(NoReduce)": noredb,
+                                       "KARA_THRESHOLD": kthr, "SQR_THRESHOLD": sthr}
+        if redb != 1 or noredb != 0:
+            chk.broke("tie: Rational::Reduce / NoReduce convert to forcereduce = %d / %d (the model of Rational(f,m,k,recurs) and of "
+                      "QField<Rational>::ratrecon assumes 1 / 0: the default mode requests a reduced fraction)" % (redb, noredb))
+        if kthr < 1:
+            chk.broke("tie: KARA_THRESHOLD = %d; C11_list_ratrecon_sound (C08's product theorem) needs a threshold >= 1" % kthr)
+            kthr = 1
+        sthr = max(sthr, 0)
+    elif rc in (124, -9):
+        chk.notes.append("inconclusive: the harness timed out printing its constants; thresholds 50/50 assumed")
+    else:
+        chk.broke("tie: the harness did not print the constants of the compiled implementation", "rc=%s out=%r %s" % (rc, cout[:2], cerr[-300:]))
     cases = gen_cases(rng, tier, chk)
     # polynomial cases: (variant, op for the model, impl args, model args, frac, fclass, mclass, extra)
     npoly = 2500 if tier == "quick" else 120000
     pcases = []
     for i in range(npoly):
         v, args, fclass, frac, pc = gen_poly_case(rng, tier != "quick")
-        pcases.append((v, v[:-1] if v.endswith("d") else v, args, args, frac, fclass, "p=%d" % pc[0], pc))
+        pcases.append((v, poly_model_op(v), args, args, frac, fclass, "p=%d" % pc[0], pc))
     # exhaustive small block over F_2 and F_3 (deterministic): every M of small degree (F_3: both leading coefficients), every residue P up to a degree above deg M
     # (residues of degree below / equal / above the modulus), every dk in [0, deg M), 5-argument, check and dispatcher with both flags
     # number of coefficient slots of P per (p, deg M, leading coefficient of M): deg P ranges over -1 .. slots - 1
@@ -787,15 +809,24 @@ def main(tier, replay=None):
     impl_in = "".join("%s %s\n" % (c[0], " ".join(str(x) for x in c[2])) for c in allc)
     model_in = ["%s %s\n" % (c[1], " ".join(str(x) for x in c[3])) for c in allc]
     vf.log("C11: generation done %.1fs" % (time.time() - chk.t0))
-    rc, iout, ierr = vf.run_lines(himpl, impl_in, timeout=1500)
+    rc, iout, ierr = vf.run_lines(himpl, impl_in, timeout=2400)
+    if rc == 124 and "[timeout]" in ierr:
+        # a time-out of our own tooling (machine load) is an inconclusive stream, not a violation of the property
+        chk.notes.append("INCONCLUSIVE: the implementation harness did not finish %d cases within 2400 s (machine load); no case judged" % len(allc))
+        chk.cov["inconclusive"] = ["implementation harness time-out"]
+        return chk.finish()
     if rc != 0 or len(iout) != len(allc):
         bad = allc[len(iout)] if len(iout) < len(allc) else None
         chk.broke("implementation harness failed (rc=%s, %d/%d lines); next case: %s" % (rc, len(iout), len(allc), bad and (bad[0], bad[2])), ierr)
         return chk.finish()
     mout = None
     if drv:
-        rc, mout, merr = run_parallel(drv, model_in, 6 if tier == "quick" else 12)
-        if rc != 0 or len(mout) != len(allc):
+        rc, mout, merr = run_parallel(drv, model_in, 6 if tier == "quick" else 12, args=[str(kthr), str(sthr)])
+        if rc == 124 and "[timeout]" in merr:
+            chk.notes.append("INCONCLUSIVE: the extracted model did not finish within its time limit (machine load); correspondence not judged, specification oracle judged")
+            chk.cov["inconclusive"] = ["model driver time-out"]
+            mout = None
+        elif rc != 0 or len(mout) != len(allc):
             chk.broke("model driver failed (rc=%s, %d/%d lines)" % (rc, len(mout), len(allc)), merr)
             mout = None
     vf.log("C11: impl+model runs done %.1fs" % (time.time() - chk.t0))
@@ -816,7 +847,7 @@ def main(tier, replay=None):
             if out is None:
                 chk.broke("unparsable implementation output on %s %s: %r" % (v, ia, iout[i]))
                 continue
-            site = "polyratrecon:" + op[5:]
+            site = "polyratrecon:" + op[5:]      # op = model op: rr5 / check / rr6 (storage type and aliasing suffixes stripped)
             for klass, msg in poly_spec(v, pc, out):
                 chk.fail_input(site, klass, case, msg, iout[i], msg)
             if out[0]: st("poly/success")
@@ -883,7 +914,8 @@ def main(tier, replay=None):
                        "deg M in 1..16 (48 thorough), dk in [0, deg M); P = A/B mod M inside the uniqueness range (also with a common factor), zero, constant, deg >= deg M, "
                        "multiple of M, sharing a factor with M, deg = dk, random; exhaustive block over F_2 and F_3.  non-trivial = m > 3 resp. deg M >= 2; distinct = (variant,args)" % POLY_PRIMES)
     chk.cov["traces_validated_against_impl"] = ncorr
-    chk.cov["variants"] = len(VARIANTS) + 6
+    chk.cov["variants"] = len(VARIANTS) + len(POLY_FORMS)
+    chk.cov["call_forms"] = dict((k[8:], n) for k, n in sorted(stats.items()) if k.startswith("variant/"))
     chk.cov["distribution"] = dict(sorted(stats.items()))
     fb = {}
     for f in chk.failing:
